@@ -70,6 +70,9 @@ def _targets(t: ast.AST, prefix: str = ''):  # noqa: ANN202
         yield from _targets(t.value, prefix + '*')
 
 
+_ALLSIGS: dict[int, dict[str, set[str]]] = {}
+
+
 def bindings(fn: ast.AST) -> list[tuple[str, str]]:
     """(local name, signature of its first binding), in order of first binding."""
     params = _params(fn)
@@ -102,10 +105,15 @@ def bindings(fn: ast.AST) -> list[tuple[str, str]]:
     names = {nm for nm, _k, _v in raw} - params - declared
     out: list[tuple[str, str]] = []
     seen: set[str] = set()
+    allsigs: dict[str, set[str]] = {}
+    for nm, kind, val in raw:
+        if nm in names:
+            allsigs.setdefault(nm, set()).add(f'{kind}:{_txt(val, names)}')
     for nm, kind, val in raw:
         if nm in names and nm not in seen:
             seen.add(nm)
             out.append((nm, f'{kind}:{_txt(val, names)}'))
+    _ALLSIGS[id(fn)] = allsigs
     return out
 
 
@@ -285,7 +293,7 @@ def build(root: str) -> dict[str, list[list[str]]]:
             for q, node in _functions(tree, rel):
                 b = bindings(node)
                 if b:
-                    out[q] = [[n, s] for n, s in b]
+                    out[q] = [[n, s_, sorted(_ALLSIGS[id(node)].get(n, []))] for n, s_ in b]
                 if node.name.startswith('_') and not node.name.startswith('__') and '<locals>' not in q:
                     shapes.setdefault('private', {})[q] = body_digest(node)
                 augs = sorted({f'{_u(n.target)} {type(n.op).__name__}' for n in _own(node) if isinstance(n, ast.AugAssign)})
@@ -344,7 +352,7 @@ def _sim(a: str, b: str) -> float:
     if ka != kb:
         return 0.0
     r = difflib.SequenceMatcher(None, a, b, autojunk=False).ratio()
-    return r if r >= 0.55 else 0.0
+    return r if r >= 0.7 else 0.0
 
 
 def _align(known: list[str], cur: list[str]) -> list[tuple[int, int]]:
@@ -370,18 +378,7 @@ def _align(known: list[str], cur: list[str]) -> list[tuple[int, int]]:
             i += 1
         else:
             j += 1
-    # gaps with the same number of leftover bindings of the same kinds on both sides are paired in order
-    # (the first binding of a local moved, e.g. because an if/else was inverted)
-    full: list[tuple[int, int]] = []
-    pa = pb = 0
-    for a, b in out + [(n, m)]:
-        ga, gb = list(range(pa, a)), list(range(pb, b))
-        if ga and len(ga) == len(gb) and all(_kind(known[x]) == _kind(cur[y]) for x, y in zip(ga, gb)):
-            full += list(zip(ga, gb))
-        if a < n:
-            full.append((a, b))
-        pa, pb = a + 1, b + 1
-    return full
+    return out
 
 
 class _Rename(ast.NodeTransformer):
@@ -458,6 +455,17 @@ def _restore_names(q: str, node: ast.AST, tab: dict, log: list[str]) -> None:
         all_names = {x.id for x in ast.walk(node) if isinstance(x, ast.Name)} | _params(node)
         mapping: dict[str, str] = {}
         pairs = _align([k[1] for k in known], [s_ for _n, s_ in cur])
+        # a local whose first binding moved (an inverted if/else) is recognised by the *set* of all its bindings
+        cur_all = _ALLSIGS.get(id(node), {})
+        done_k, done_c = {a_ for a_, _b in pairs}, {b_ for _a, b_ in pairs}
+        for ai, k in enumerate(known):
+            if ai in done_k or len(k) < 3 or not k[2]:
+                continue
+            cands = [bi for bi, (cn_, _s) in enumerate(cur) if bi not in done_c and sorted(cur_all.get(cn_, [])) == list(k[2])]
+            if len(cands) == 1:
+                pairs.append((ai, cands[0]))
+                done_k.add(ai)
+                done_c.add(cands[0])
         for ai, bi in pairs:
             kn, cn = known[ai][0], cur[bi][0]
             if kn == cn:
